@@ -294,9 +294,17 @@ def bounds_constraint(ctx):
                 if tail(cur[1]) == 'symbolic_bounds':
                     break
                 cur = cur[2][0]
-            ok_ = chain == ['generate_constraint', 'generate_solvers', 'simplify', 'symbolic_bounds'] and cur[2][:2] == (MIN, MAX) and not cur[3]
-            ctx.check(ok_, 'boundsconstrain#symbolic', 'symbolic_bounds(min, max) -> simplify -> generate_solvers -> generate_constraint',
+            # the text symbolic_bounds writes ('xi >= <min[i] in full>' / 'xi <= <max[i] in full>') is already in solved form and
+            # is compiled as it is: routed through simplify, sympy re-prints every number with 15 significant digits (a bound
+            # of 1/3 becomes 0.333333333333333, BELOW the bound, so the "clipped" value lies outside the box), an all-open box
+            # raises, and random test points are drawn (C07)
+            ok_ = chain in (['generate_constraint', 'generate_solvers', 'symbolic_bounds'], ['generate_constraint', 'generate_solvers', 'simplify', 'symbolic_bounds']) \
+                and cur[2][:2] == (MIN, MAX) and not cur[3]
+            ctx.check(ok_, 'boundsconstrain#symbolic', 'symbolic_bounds(min, max) -> generate_solvers -> generate_constraint',
                       'the symbolic bounds pipeline is %s' % T.show(tm)[:200], h, p.exit_node)
+            ctx.check('simplify' not in chain, 'boundsconstrain#verbatim-bounds', 'the bounds text is compiled as symbolic_bounds wrote it (numbers in full)',
+                      'boundsconstrain sends the bounds text through simplify: sympy re-prints the numbers with 15 significant digits, so a bound that is not representable in 15 digits is moved '
+                      '(boundsconstrain([1/3.],[2/3.])([0.]) -> [0.333333333333333] < 1/3: outside the box)', h, p.exit_node, statement='symbolic bounds text re-printed by simplify')
         else:
             n_plain += 1
             ok_ = tm[0] == 'call' and tm[1][0] == 'call' and tail(tm[1][1]) == 'impose_bounds' and len(tm[1][2]) == 1 and \
